@@ -249,14 +249,55 @@ func (c *c15) RunCase(w *core.Worker, idx int, seed uint64, res *core.CaseResult
 			res.Tracef("%s", s)
 		}
 		st := fixture.NewFakeStream[*sdcpb.WatchDeviationResponse](ctx)
+		// other watchers of the same datastore: a second healthy one (must get the same reports) and clients that went
+		// away while they are still in the cycle's set of watchers (their failing Send is their problem alone)
+		watchers := map[string]sdcpb.DataServer_WatchDeviationsServer{"peer": st}
+		var twin *fixture.FakeStream[*sdcpb.WatchDeviationResponse]
+		var others []*fixture.FakeStream[*sdcpb.WatchDeviationResponse]
+		if (idx+round)%4 == 1 || (idx+round)%4 == 3 {
+			twin = fixture.NewFakeStream[*sdcpb.WatchDeviationResponse](ctx)
+			watchers["twin"] = twin
+			others = append(others, twin)
+		}
+		if (idx+round)%4 >= 2 {
+			for i, name := range []string{"a-gone", "q-gone", "z-gone"} {
+				d := fixture.NewFakeStream[*sdcpb.WatchDeviationResponse](ctx)
+				d.FailAtSend = 1 + i
+				watchers[name] = d
+				others = append(others, d)
+			}
+			res.Count("cycles_with_failing_watchers", 1)
+		}
 		panicked := apiCall(res, "deviation cycle", func() {
-			ds.VerifDeviationCycle(ctx, map[string]sdcpb.DataServer_WatchDeviationsServer{"peer": st})
+			ds.VerifDeviationCycle(ctx, watchers)
 		})
 		st.Cancel()
+		for _, o := range others {
+			o.Cancel()
+		}
 		if panicked {
 			return
 		}
 		msgs := st.Sent
+		if twin != nil {
+			res.Count("cycles_with_two_healthy_watchers", 1)
+			a, b := map[string]int{}, map[string]int{}
+			for _, m := range msgs {
+				a[m.String()]++
+			}
+			for _, m := range twin.Sent {
+				b[m.String()]++
+			}
+			for k, n := range a {
+				if b[k] != n {
+					res.Violate("C15/watchers-get-different-reports", "a second watcher of the same datastore got %d instead of %d times: %s", b[k], n, k)
+					break
+				}
+			}
+			if len(twin.Sent) != len(msgs) {
+				res.Violate("C15/watchers-get-different-reports", "one watcher got %d messages, the other %d", len(msgs), len(twin.Sent))
+			}
+		}
 		res.Count("cycles", 1)
 		res.Count("messages", len(msgs))
 		if len(msgs) == 0 || msgs[0].GetEvent() != sdcpb.DeviationEvent_START {
